@@ -95,7 +95,7 @@ def run_families(c, families, binp, nontrivial, procs=4):
         hcfg = dict(rowTags={str(k): v for k, v in tags.items()}, index=fam.get('index', 'none'), engine=fam.get('engine', 'measure'),
                     versioned=fam['versioned'], flags=fam.get('flags', []), big=fam.get('big', False),
                     tagsBySeries=bool(fam.get('tags_by_series')), negZero=bool(fam.get('negzero')),
-                    ballast=fam.get('ballast', 0), ballastMode=fam.get('ballast_mode', 'deep'), lifecycle=fam.get('lifecycle', ''), shards=fam.get('shards', 1))
+                    ballast=fam.get('ballast', 0), ballastMode=fam.get('ballast_mode', 'deep'), lifecycle=fam.get('lifecycle', ''), shards=fam.get('shards', 1), ruleIdSign=fam.get('rule_id_sign', ''))
         res = c.run_harness_parallel(binp, ['-cfg', json.dumps(hcfg)], allb, name='eng-' + fam['name'], procs=fam.get('procs', procs), timeout=2400, max_per_proc=120, env=fam.get('env'))
         if res['inconclusive']:
             c.inconclusive('; '.join(res['inconclusive'][:3]))
@@ -108,6 +108,11 @@ def run_families(c, families, binp, nontrivial, procs=4):
             again = c.run_harness_parallel(binp, ['-cfg', json.dumps(hcfg)], [b], name='repro', procs=1, timeout=600)
             if not [x for x in again['violations'] if x['signature'] == v['signature']]:
                 c.unreproduced('violation %s (family %s) not reproduced on a second run: %s' % (v['signature'], fam['name'], v['detail'][:300]))
+                # kept for the analysis of schedule- or state-dependent findings (never a verdict)
+                ud = os.path.join(core.BUILD, 'unreproduced')
+                os.makedirs(ud, exist_ok=True)
+                json.dump({'behaviour': b, 'harness': 'eng', 'cfg': hcfg, 'family': fam['name'], 'signature': v['signature'], 'detail': v['detail'], 'index_in_run': v['behaviour']},
+                          open(os.path.join(ud, '%s-%s-%d.json' % (c.pid, fam['name'], v['behaviour'])), 'w'))
                 continue
             c.report(v['signature'], v['detail'], {'behaviour': b, 'harness': 'eng', 'cfg': hcfg, 'family': fam['name']})
         tot['behaviours'] += res['behaviours']
